@@ -80,3 +80,40 @@ PROPS["C08"] = dict(
            "core::str::from_utf8 -> nondeterministic verdict, only in the c08_limit_* harnesses"],
     jobs=_c08,
 )
+
+_PARSE_FUNCS = ["Message::from_bytes", "MessageHeader::from_bytes", "MessageType::from_bytes", "RawAttribute::from_bytes",
+                "AttributeHeader::parse", "padded_attr_len", "AttributeExt::padded_len", "Fingerprint::from_raw",
+                "MessageAttributesIter::next", "Message::{iter_attributes,raw_attribute,has_attribute,class,method,transaction_id,get_type}"]
+_CRC_STUB = "Fingerprint::compute -> recorder + unconstrained 4-byte result (the parser logic is decided for every CRC value; the recorded input is asserted to be the message up to the FINGERPRINT with the rewritten length field)"
+
+PROPS["C02"] = dict(
+    functions=_PARSE_FUNCS,
+    bounds="every byte string of length 0..=32 (quick; <=3 attributes) / 0..=36 and 0..=44 (thorough; <=6 attributes), all contents",
+    outside=["buffers longer than 44 bytes / more than 6 attributes", "the text of error messages", "the CRC as a function (C09)"],
+    stubs=[_CRC_STUB],
+    jobs=[
+        K("c02::c02_verdict_32", encodes="from_bytes accepts iff refdec accepts; rejection cause and byte counts; CRC input; class/method/tid", bounds="len 0..=32", mem=8),
+        K("c02::c02_iter_32", encodes="iter_attributes in lock-step with refdec's exposed list (type, length, value pointer)", bounds="len 0..=32", mem=10),
+        K("c02::c02_has_32", encodes="has_attribute(q) for symbolic q == first exposed match", bounds="len 0..=32, all 65536 q", mem=10),
+        K("c02::c02_lookup_32", encodes="raw_attribute(q) for symbolic q == first exposed match", bounds="len 0..=32, all 65536 q", mem=10),
+        K("c02::c02_verdict_36", T, encodes="as verdict_32", bounds="len 0..=36", mem=12, timeout=5400),
+        K("c02::c02_iter_36", T, encodes="as iter_32 (fits [MI,SHA256,FP] tails)", bounds="len 0..=36", mem=16, timeout=5400),
+        K("c02::c02_has_36", T, encodes="as has_32", bounds="len 0..=36", mem=16, timeout=5400),
+        K("c02::c02_lookup_36", T, encodes="as lookup_32", bounds="len 0..=36", mem=16, timeout=5400),
+        K("c02::c02_verdict_44", T, encodes="as verdict_32", bounds="len 0..=44", mem=20, timeout=7200),
+    ],
+)
+
+PROPS["C17"] = dict(
+    functions=["Message::from_bytes", "MessageHeader::{from_bytes,data_length,transaction_id,get_type}", "MessageType::from_bytes"],
+    bounds="every well-formed message of 20..=32 bytes (quick) / ..=44 (thorough) x every cut point; header decoder on every buffer of 0..=24 bytes",
+    outside=["messages longer than 44 bytes"],
+    stubs=[_CRC_STUB],
+    assumptions=["'well-formed message' is judged by the reference decoder refdec, which C02 shows equivalent to Message::from_bytes on the same bounds"],
+    jobs=[
+        K("c17::c17_prefix_32", encodes="from_bytes(m[..c]) == Truncated{expected: c<20 ? 20 : len(m), actual: c} for every accepted m and cut c", bounds="len(m) <= 32", mem=8),
+        K("c17::c17_header_decoder", encodes="MessageHeader::from_bytes on all buffers: Ok iff >=20 bytes, top bits zero, cookie; fields as encoded", bounds="len 0..=24"),
+        K("c17::c17_header_vs_parser", encodes="header decoder and parser agree on NotStun and on type/tid/length", bounds="len 20..=28", mem=8),
+        K("c17::c17_prefix_44", T, encodes="as prefix_32", bounds="len(m) <= 44", mem=16, timeout=5400),
+    ],
+)
